@@ -7,6 +7,16 @@
  *   fut_replay explore <scenario> <limit>     <trace.ndjson> <meta.ndjson>
  *   fut_replay random  <scenario> <runs>      <trace.ndjson> <meta.ndjson> <seed>
  *   fut_replay stress  <scenario> <runs>      <trace.ndjson> <meta.ndjson>
+ *   fut_replay burst   <scenario> <rounds>    <trace.ndjson> <meta.ndjson> [futures per round]
+ *
+ * burst (countable futures, free-running): the T threads of the scenario stay alive; in every round F fresh countable
+ * futures with count = `count` of the scenario are created, all threads are released together by a spin barrier and each
+ * performs exactly one parsec_future_set on every future, in the same order, so that the LAST sets of a future overlap;
+ * after a second barrier one thread asks is_ready of every future and destroys it.  Each future is one execution
+ * (init, inv/res of every set, every callback invocation, the final is_ready, final); events carry stamps of one
+ * process-wide atomic counter taken at the event (same discipline as vtrace) and are sorted per future.  Thread ids
+ * are renamed in order of first appearance in the history of the future (FutureTrace is symmetric in the thread
+ * ids); a history whose text was already written is only counted, not written again (exact text comparison).
  *
  * scenario file:  kind base|count|dc / count N / sync 0|1 / threads T / t <tid> op op ...   with op in
  *                 set:<v>  get  isready            (base, count)
@@ -253,6 +263,138 @@ static int once(void *ctx, const unsigned char *sched, int slen, vs_run_t *r)
 
 static void *stress_thread(void *p) { body((int)(intptr_t)p, NULL); return NULL; }
 
+/* ---- burst mode --------------------------------------------------------------------------------------------------- */
+#include <sched.h>
+#include <time.h>
+#define BMAXF 256
+enum { BE_INV, BE_RES, BE_CB, BE_RINV, BE_RRES };
+typedef struct { long stamp; short f; short type; short r; short t; } bev_t;
+static parsec_base_future_t *bfut[BMAXF];
+static int bnf = 64;
+static volatile long bstamp;
+static bev_t *bevs[MAXT + 1]; static int bnev[MAXT + 1], bcap;     /* per-thread event arrays of the current round */
+static __thread int btid;                                             /* 0-based thread of the burst */
+static volatile int bbar_in, bbar_gen, bquit;
+static double bdeadline;
+static long brounds, bdone, bhist, bdistinct, bcbs, boverflow;
+
+static void bev(int f, int type, int r)
+{
+    long st = __sync_fetch_and_add(&bstamp, 1);
+    int k = bnev[btid];
+    if( k >= bcap ) { __sync_fetch_and_add(&boverflow, 1); return; }
+    bevs[btid][k].stamp = st; bevs[btid][k].f = (short)f; bevs[btid][k].type = (short)type; bevs[btid][k].r = (short)r;
+    bnev[btid] = k + 1;
+}
+
+static void cb_burst(parsec_base_future_t *f, ...)
+{
+    for( int i = 0; i < bnf; i++ ) if( bfut[i] == f ) { bev(i, BE_CB, 0); return; }
+    bev(0, BE_CB, -1);        /* a callback for an unknown future: shows as an extra callback of future 0 */
+}
+
+static void bbarrier(void)
+{
+    int gen = bbar_gen;
+    if( nthreads == __sync_add_and_fetch(&bbar_in, 1) ) {
+        bbar_in = 0;
+        __sync_synchronize();
+        bbar_gen = gen + 1;
+    } else {
+        int spin = 0;
+        while( bbar_gen == gen ) { if( ++spin > 2000 ) { sched_yield(); spin = 0; } }
+    }
+    __sync_synchronize();
+}
+
+/* set of the history texts already written (exact comparison) */
+typedef struct bnode_s { struct bnode_s *next; unsigned long h; char *txt; } bnode_t;
+#define BHASH 16384
+static bnode_t *btab[BHASH];
+static int bseen(const char *txt)
+{
+    unsigned long h = 1469598103934665603UL;
+    for( const char *p = txt; *p; p++ ) h = (h ^ (unsigned char)*p) * 1099511628211UL;
+    for( bnode_t *n = btab[h % BHASH]; n; n = n->next ) if( n->h == h && !strcmp(n->txt, txt) ) return 1;
+    bnode_t *n = (bnode_t*)malloc(sizeof(bnode_t));
+    n->h = h; n->txt = strdup(txt); n->next = btab[h % BHASH]; btab[h % BHASH] = n;
+    return 0;
+}
+
+static int bev_cmp(const void *a, const void *b) { long x = ((const bev_t*)a)->stamp, y = ((const bev_t*)b)->stamp; return x < y ? -1 : x > y; }
+
+/* after the round (single thread): one execution per future */
+static void bemit_round(void)
+{
+    static bev_t all[(MAXT + 1) * 8 + 64];
+    static char txt[(MAXT + 1) * 8 * 64 + 512];
+    for( int f = 0; f < bnf; f++ ) {
+        int n = 0, len = 0, map[MAXT + 2], nmap = 0;
+        for( int t = 0; t <= nthreads; t++ )
+            for( int k = 0; k < bnev[t]; k++ )
+                if( bevs[t][k].f == f && n < (int)(sizeof(all) / sizeof(all[0])) ) { all[n] = bevs[t][k]; all[n].t = (short)t; n++; }
+        qsort(all, (size_t)n, sizeof(bev_t), bev_cmp);
+        for( int t = 0; t <= nthreads + 1; t++ ) map[t] = 0;
+        len += snprintf(txt + len, sizeof(txt) - len, "{\"e\":\"init\",\"kind\":\"count\",\"n\":%d,\"sync\":1}\n", count);
+        for( int k = 0; k < n; k++ ) {
+            int t = all[k].t, r = all[k].r, id;
+            if( 0 == map[t] ) map[t] = ++nmap;
+            id = map[t];
+            switch( all[k].type ) {
+            case BE_INV:  len += snprintf(txt + len, sizeof(txt) - len, "{\"e\":\"inv\",\"t\":%d,\"op\":\"set\",\"v\":1}\n", id); break;
+            case BE_RES:  len += snprintf(txt + len, sizeof(txt) - len, "{\"e\":\"res\",\"t\":%d,\"op\":\"set\",\"r\":0}\n", id); break;
+            case BE_CB:   len += snprintf(txt + len, sizeof(txt) - len, "{\"e\":\"cb\",\"t\":%d}\n", id); bcbs++; break;
+            case BE_RINV: len += snprintf(txt + len, sizeof(txt) - len, "{\"e\":\"inv\",\"t\":%d,\"op\":\"isready\"}\n", id); break;
+            default:      len += snprintf(txt + len, sizeof(txt) - len, "{\"e\":\"res\",\"t\":%d,\"op\":\"isready\",\"r\":%d}\n", id, r); break;
+            }
+        }
+        len += snprintf(txt + len, sizeof(txt) - len, "{\"e\":\"final\"}");
+        bhist++;
+        if( bseen(txt) ) continue;
+        if( bdistinct++ ) vt_reset_marker();
+        vt_raw("%s", txt);
+    }
+}
+
+static void *burst_thread(void *p)
+{
+    btid = (int)(intptr_t)p;
+    cur_tid = btid + 1;
+    for( long r = 0; r < brounds; r++ ) {
+        if( 0 == btid ) {
+            struct timespec ts; clock_gettime(CLOCK_MONOTONIC, &ts);
+            if( ts.tv_sec + 1e-9 * ts.tv_nsec > bdeadline ) bquit = 1;   /* written before the barrier, read after it */
+            for( int t = 0; t <= nthreads; t++ ) bnev[t] = 0;
+            for( int i = 0; i < bnf && !bquit; i++ ) {
+                bfut[i] = (parsec_base_future_t*)PARSEC_OBJ_NEW(parsec_countable_future_t);
+                parsec_future_init(bfut[i], cb_burst, count);
+            }
+        }
+        bbarrier();
+        if( bquit ) break;
+        if( 0 == btid ) bdone++;
+        for( int i = 0; i < bnf; i++ ) {
+            bev(i, BE_INV, 0);
+            parsec_future_set(bfut[i], &vals[1]);
+            bev(i, BE_RES, 0);
+        }
+        bbarrier();
+        if( 0 == btid ) {
+            btid = nthreads;                  /* the observer logs into its own array, as one more thread */
+            for( int i = 0; i < bnf; i++ ) {
+                int rd;
+                bev(i, BE_RINV, 0);
+                rd = parsec_future_is_ready(bfut[i]) ? 1 : 0;
+                bev(i, BE_RRES, rd);
+            }
+            btid = 0;
+            bemit_round();
+            for( int i = 0; i < bnf; i++ ) PARSEC_OBJ_RELEASE(bfut[i]);
+        }
+    }
+    return NULL;
+}
+
 int main(int argc, char **argv)
 {
     if( argc < 6 ) die("usage");
@@ -321,6 +463,26 @@ int main(int argc, char **argv)
             wrapup();
             finish_execution(NULL);
         }
+    } else if( !strcmp(argv[1], "burst") ) {
+        pthread_t th[MAXT]; int t;
+        struct timespec t0, t1;
+        if( K_COUNT != kind || nthreads < 2 || count < 1 ) die("burst: countable futures, at least 2 threads");
+        brounds = atol(argv[3]);
+        if( argc > 6 ) bnf = atoi(argv[6]);
+        if( bnf < 1 || bnf > BMAXF ) die("burst: futures per round out of range");
+        controlled = 0;
+        vals[1] = 1;
+        bcap = 4 * bnf + 16;
+        for( t = 0; t <= nthreads; t++ ) bevs[t] = (bev_t*)calloc((size_t)bcap, sizeof(bev_t));
+        clock_gettime(CLOCK_MONOTONIC, &t0);
+        bdeadline = t0.tv_sec + 1e-9 * t0.tv_nsec + (argc > 7 ? atof(argv[7]) : 60.0);   /* budget guard, not a verdict */
+        for( t = 0; t < nthreads; t++ ) pthread_create(&th[t], NULL, burst_thread, (void*)(intptr_t)t);
+        for( t = 0; t < nthreads; t++ ) pthread_join(th[t], NULL);
+        clock_gettime(CLOCK_MONOTONIC, &t1);
+        if( boverflow ) { vt_reset_marker(); vt_raw("{\"e\":\"Overflow\"}"); }
+        fprintf(meta, "{\"rounds\":%ld,\"futures\":%ld,\"distinct\":%ld,\"callbacks\":%ld,\"threads\":%d,\"count\":%d,\"ms\":%ld}\n",
+                bdone, bhist, bdistinct, bcbs, nthreads, count,
+                (long)((t1.tv_sec - t0.tv_sec) * 1000 + (t1.tv_nsec - t0.tv_nsec) / 1000000));
     } else die("bad mode");
     fclose(meta);
     vt_close();
